@@ -177,3 +177,67 @@ func c08R6(c *Ctx) {
 			"setSendingTrack moves the direction "+strings.Join(bad, "; ")+": a transceiver whose direction was a legal answer when SetRemoteDescription returned can gain a capability the offer did not allow before CreateAnswer renders it (e.g. RemoveTrack after a recvonly offer narrowed it to sendonly)")
 	}
 }
+
+// c08R7: "the answer never sends where the offer did not agree to receive". AddTrack between or after negotiations picks a
+// transceiver for sending only when isSendAllowed says so; C08.R5 makes sure the remote direction of every negotiated
+// section is recorded. This rule closes the loop: isSendAllowed, tabulated over (current direction, recorded remote
+// direction), never answers true when the recorded remote direction is sendonly or inactive (the remote does not receive).
+func c08R7(c *Ctx) {
+	r := c.R
+	const rule = "C08.R7"
+	fi := c.mustFunc(rule, "", "RTPTransceiver.isSendAllowed")
+	curFn := c.mustFunc(rule, "", "RTPTransceiver.getCurrentDirection")
+	remFn := c.mustFunc(rule, "", "RTPTransceiver.getCurrentRemoteDirection")
+	sendonly := c.mustConst(rule, "", "RTPTransceiverDirectionSendonly")
+	inactive := c.mustConst(rule, "", "RTPTransceiverDirectionInactive")
+	if fi == nil || curFn == nil || remFn == nil || sendonly == nil || inactive == nil {
+		return
+	}
+	dom, ok := enumDomain(c, rule, "", "RTPTransceiverDirection", 77)
+	if !ok {
+		return
+	}
+	const curKey, remKey = "$recv.getCurrentDirection()", "$recv.getCurrentRemoteDirection()"
+	cfg := absint.Config{P: c.P, MaxPaths: 20000,
+		Dims: []absint.Dim{{Key: curKey, Domain: dom}, {Key: remKey, Domain: dom}},
+		OnCall: func(in *absint.Interp, st *absint.State, call *ast.CallExpr, fn *types.Func, recv absint.Val, args []absint.Val) (absint.Val, bool) {
+			switch fn {
+			case curFn.Obj:
+				if v, ok := st.Dim(curKey); ok {
+					return v, true
+				}
+			case remFn.Obj:
+				if v, ok := st.Dim(remKey); ok {
+					return v, true
+				}
+			}
+			return nil, false
+		},
+	}
+	t := absint.Tabulate(cfg, fi)
+	pos := c.P.Pos(fi.Decl.Pos())
+	if tableProblems(c, rule, "isSendAllowed|table", pos, t) {
+		return
+	}
+	r.Cells += len(t.Rows)
+	blocked := map[string]bool{absint.ConstOf(sendonly).String(): true, absint.ConstOf(inactive).String(): true}
+	for _, row := range t.Rows {
+		rem := row.Get(remKey)
+		if !blocked[rem] {
+			continue
+		}
+		key := "isSendAllowed|cell|current=" + row.Get(curKey) + ",remote=" + rem
+		mayTrue := false
+		for _, o := range row.Outcomes {
+			if len(o.Results) != 1 {
+				mayTrue = true
+				continue
+			}
+			if o.Results[0].String() != "false" {
+				mayTrue = true
+			}
+		}
+		r.Check(!mayTrue, rule, key, pos, "never allowed to send (outcomes: "+outcomesStr(row.Outcomes)+")",
+			"isSendAllowed can answer true although the recorded remote direction is "+rem+" (the remote does not receive): AddTrack re-uses the transceiver for sending and the next answer to a sendonly/inactive offer says sendrecv/sendonly (outcomes: "+outcomesStr(row.Outcomes)+")")
+	}
+}
